@@ -3,8 +3,13 @@
           -> OK <hex value> | EINVAL <hex stored> | ERANGE <hex stored> | fault | assert | fuel
           form = p2 | p4 | ex4 | ex6 (p2/ex4 have no bounds: "-"), kind = u | s
      pf <site> <form> f <width> <minbits> <maxbits> <base> <trailing> <strhex>
-        <consumed> <erange> <lt_min> <gt_max> <class> <valtoken>
-          -> OK <valtoken> | EINVAL <valtoken> | ERANGE <valtoken>   (strtod's answer is given as data)
+        <consumed> <erange> <lt_min> <gt_max> <class> <dbits>
+          -> OK <tok> | EINVAL <tok> | ERANGE <tok> | oracle-mismatch
+          strtod's answer is data: characters consumed, its own ERANGE, and the double it returned as 16
+          hex digits (or "nan"); the comparisons with the bounds (binary64 patterns, "-" = none) and the
+          class are computed by the model from those bits and must agree with the ones on the line;
+          tok = the pattern of *x afterwards (8 hex digits for a float target - the model's own
+          narrowing - 16 for a double) or "nan"
      hs <hex n>     -> ok <hex of the string>
      hp <strhex>    -> 0 <hex size> | -1 <hex size>
    with a "spec" prefix the independent spec is evaluated instead of the model:
@@ -17,7 +22,8 @@ let show_res f = function
 
 let kind_of = function "u" -> KUnsigned | "s" -> KSigned | "f" -> KFloat | _ -> failwith "kind"
 let zdec s = z_of_int (int_of_string s)
-let sd_none = { sd_consumed = O; sd_erange = false; sd_lt_min = false; sd_gt_max = false; sd_class = FFinite }
+let sd_none = { sd_consumed = O; sd_erange = false; sd_lt_min = false; sd_gt_max = false; sd_bits = Z0 }
+let pad n s = if Stdlib.String.length s >= n then s else Stdlib.String.make (n - Stdlib.String.length s) '0' ^ s
 let cstr s = bytes_of_hex s @ [N0]
 
 let show_outcome o =
@@ -42,13 +48,21 @@ let () = iter_lines (fun line ->
         | "p2" | "ex4" -> parse_spec_nobounds (zdec w) (zdec base) (tr = "1") (bytes_of_hex s)
         | _ -> parse_spec (kind_of k) (zdec w) (z_of_hex mn) (z_of_hex mx) (zdec base) (tr = "1") (bytes_of_hex s)) in
     print_endline (match r with OkV v -> "OK " ^ hex_of_z v | EINVAL -> "EINVAL" | ERANGE -> "ERANGE")
-  | ["pf"; _; form; k; w; _; _; base; tr; s; consumed; erange; lt; gt; cls; tok] ->
+  | ["pf"; _; form; k; w; mnb; mxb; base; tr; s; consumed; erange; lt; gt; cls; tok] ->
     let t = { ck = kind_of k; cw = zdec w } in
-    let sd = { sd_consumed = nat_of_int (int_of_string consumed); sd_erange = (erange = "1");
-               sd_lt_min = (lt = "1"); sd_gt_max = (gt = "1");
-               sd_class = (match cls with "inf" -> FInf | "nan" -> FNan | _ -> FFinite) } in
-    print_endline (show_res (fun o -> (match o.o_errno with ENone -> "OK " | EInval -> "EINVAL " | ERange -> "ERANGE ") ^ tok)
-                     (run_macro form t (cstr s) "0" "0" (zdec base) (tr = "1") sd))
+    let bits = if tok = "nan" then z_of_hex "7ff8000000000000" else z_of_hex tok in
+    let fmin = if mnb = "-" then z_of_hex "fff0000000000000" else z_of_hex mnb in
+    let fmax = if mxb = "-" then z_of_hex "7ff0000000000000" else z_of_hex mxb in
+    let sd = mk_sd (nat_of_int (int_of_string consumed)) (erange = "1") bits fmin fmax in
+    let c = (match sd_class sd with FInf -> "inf" | FNan -> "nan" | FFinite -> "fin") in
+    if sd.sd_lt_min <> (lt = "1") || sd.sd_gt_max <> (gt = "1") || c <> cls then print_endline "oracle-mismatch"
+    else
+      let show o =
+        (match o.o_errno with ENone -> "OK " | EInval -> "EINVAL " | ERange -> "ERANGE ") ^
+        (match decode_w t.cw o.o_stored with
+         | VNan -> "nan"
+         | _ -> pad (if t.cw = zdec "32" then 8 else 16) (hex_of_z o.o_stored)) in
+      print_endline (show_res show (run_macro form t (cstr s) "0" "0" (zdec base) (tr = "1") sd))
   | ["hs"; n] -> print_endline (show_res (fun l -> "ok " ^ hex_of_bytes l) (humansize_repo (z_of_hex n)))
   | ["spec"; "hs"; n] -> print_endline ("ok " ^ hex_of_bytes (hs_format_spec (z_of_hex n)))
   | ["hp"; s] ->
